@@ -40,6 +40,21 @@ type scenario struct {
 	nResp   int
 	outcome string // ok | err | err2
 	long    bool
+	// bit i set: request / response message i is the all-default message (no
+	// field set), which is encoded as a frame of size zero
+	reqEmpty, respEmpty uint
+}
+
+// pattern spells a mask out: N a non-empty message, E an empty one.
+func pattern(n int, mask uint) string {
+	b := make([]byte, n)
+	for i := range b {
+		b[i] = 'N'
+		if mask&(1<<uint(i)) != 0 {
+			b[i] = 'E'
+		}
+	}
+	return string(b)
 }
 
 func (s scenario) name() string {
@@ -47,10 +62,20 @@ func (s scenario) name() string {
 	if s.long {
 		l = "/long"
 	}
+	if s.reqEmpty != 0 || s.respEmpty != 0 {
+		l += fmt.Sprintf("/req=%s,resp=%s", pattern(s.nReq, s.reqEmpty), pattern(s.nResp, s.respEmpty))
+	}
 	return fmt.Sprintf("%s/req%d/resp%d/%s%s", s.kind, s.nReq, s.nResp, s.outcome, l)
 }
 
 func (s scenario) msg(dir string, i int) string {
+	mask := s.reqEmpty
+	if dir == "r" {
+		mask = s.respEmpty
+	}
+	if mask&(1<<uint(i)) != 0 {
+		return ""
+	}
 	if s.long {
 		return dir + fmt.Sprint(i) + strings.Repeat("x", 298)
 	}
@@ -85,21 +110,44 @@ func scenarios(tier string) []scenario {
 			outcomes = append(outcomes, "err2")
 		}
 		for _, oc := range outcomes {
-			out = append(out, scenario{"unary", 1, 1, oc, long})
+			out = append(out, scenario{kind: "unary", nReq: 1, nResp: 1, outcome: oc, long: long})
 			for n := 0; n <= 3; n++ {
 				nr := 1
 				if oc != "ok" {
 					nr = 0
 				}
-				out = append(out, scenario{"cstream", n, nr, oc, long})
+				out = append(out, scenario{kind: "cstream", nReq: n, nResp: nr, outcome: oc, long: long})
 			}
 			for m := 0; m <= 3; m++ {
-				out = append(out, scenario{"sstream", 1, m, oc, long})
+				out = append(out, scenario{kind: "sstream", nReq: 1, nResp: m, outcome: oc, long: long})
 			}
 			for n := 0; n <= 3; n++ {
 				for m := 0; m <= 3; m++ {
-					out = append(out, scenario{"bidi", n, m, oc, long})
+					out = append(out, scenario{kind: "bidi", nReq: n, nResp: m, outcome: oc, long: long})
 				}
+			}
+			if long {
+				continue
+			}
+			// every pattern of empty / non-empty messages of length <= 3 with at
+			// least one empty message (the scenarios above are the all-non-empty
+			// patterns), as request stream and as response stream; and the empty
+			// message as single request, single response, unary request and reply
+			nr := 1
+			if oc != "ok" {
+				nr = 0
+			}
+			for n := 1; n <= 3; n++ {
+				for mask := uint(1); mask < 1<<uint(n); mask++ {
+					out = append(out, scenario{kind: "cstream", nReq: n, nResp: nr, outcome: oc, reqEmpty: mask})
+					out = append(out, scenario{kind: "sstream", nReq: 1, nResp: n, outcome: oc, respEmpty: mask})
+				}
+			}
+			out = append(out, scenario{kind: "sstream", nReq: 1, nResp: 1, outcome: oc, reqEmpty: 1})
+			out = append(out, scenario{kind: "unary", nReq: 1, nResp: 1, outcome: oc, reqEmpty: 1})
+			if oc == "ok" {
+				out = append(out, scenario{kind: "cstream", nReq: 1, nResp: 1, outcome: oc, respEmpty: 1})
+				out = append(out, scenario{kind: "unary", nReq: 1, nResp: 1, outcome: oc, respEmpty: 1})
 			}
 		}
 	}
